@@ -428,10 +428,37 @@ var c20Nonces = []string{"dcd98b7102dd2f0e8b11d0f600bfb0c093", "7ypf/xlj9XXwfDPE
 // c20Text draws a string for user/password/token/realm-like positions.
 // kinds: plain, colon, non-ASCII (UTF-8 and Latin-1), empty, long, spaces; with special=true
 // also comma / quote / backslash (the quoted-string corner).
+// c20SchemeLike: credential strings that themselves begin with (or are) the name of an
+// authentication scheme - a token stored as the complete header value "Bearer xxx", a password
+// "Basic QQ==", any letter case, one or two spaces, the scheme twice, the bare word. A setter
+// must prefix its scheme to these like to any other string (round 7: C20-r7-2).
+var c20SchemeLike = []string{"Bearer abc", "bearer abc", "BEARER  x", "BeArEr t0k", "Bearer Bearer abc", "Bearer", "Bearer ", "bearer  ", "Bearer\tabc",
+	"Bearerabc", "Basic QQ==", "basic YTpi", "Basic Bearer abc", "Bearer Basic YTpi", "Basic", "Basic ", "Digest username=\"u\"", "digest x", "Bearer a:b", "Token abc"}
+
+// c20SchemeText: one of c20SchemeLike or a scheme word in random letter case + 0-2 spaces + a
+// random tail (possibly empty).
+func c20SchemeText(r *rand.Rand) string {
+	if r.Intn(2) == 0 {
+		return verifh.Pick(r, c20SchemeLike)
+	}
+	w := []byte(verifh.Pick(r, []string{"Bearer", "Bearer", "Bearer", "Basic", "Digest"}))
+	for i := range w {
+		switch r.Intn(4) {
+		case 0:
+			w[i] = byte(strings.ToUpper(string(w[i]))[0])
+		case 1:
+			w[i] = byte(strings.ToLower(string(w[i]))[0])
+		}
+	}
+	return string(w) + strings.Repeat(" ", r.Intn(3)) + verifh.RandBytes(r, r.Intn(9), "abcXYZ019=:-._~")
+}
+
 func c20Text(r *rand.Rand, special bool) (string, string) {
-	switch k := r.Intn(12); {
+	switch k := r.Intn(13); {
 	case k == 0:
 		return "", "empty"
+	case k == 12:
+		return c20SchemeText(r), "scheme-like"
 	case k == 1:
 		return verifh.RandBytes(r, 1+r.Intn(8), "abcXYZ019") + ":" + verifh.RandBytes(r, r.Intn(5), "abc:"), "colon"
 	case k == 2:
